@@ -175,7 +175,7 @@ pub fn generate(interface_args: &args::Interface) -> GeneratorResult<TokenStream
             });
 
             get_introspection_typename.push(quote! {
-                #ident::#enum_name(obj) => <#p as #crate_name::OutputType>::type_name()
+                #ident::#enum_name(obj) => <#p as #crate_name::OutputType>::introspection_type_name(obj)
             });
 
             collect_all_fields.push(quote! {
